@@ -1492,7 +1492,7 @@ class AbelianArray(BlockBase):
 
     @classmethod
     def from_blocks(
-        cls, blocks, duals, charge=None, symmetry=symmetry, **kwargs
+        cls, blocks, duals, charge=None, symmetry=None, **kwargs
     ):
         """Create a block array from a dictionary of blocks and sequence of
         duals.
@@ -1558,7 +1558,7 @@ class AbelianArray(BlockBase):
         index_maps,
         duals,
         charge=None,
-        symmetry=symmetry,
+        symmetry=None,
         invalid_sectors="warn",
         **kwargs,
     ):
@@ -1588,7 +1588,7 @@ class AbelianArray(BlockBase):
         AbelianArray
         """
         # XXX: warn if invalid blocks are non-zero?
-        symmetry = cls.get_class_symmetry()
+        symmetry = cls.get_class_symmetry(symmetry)
 
         if charge is None:
             charge = symmetry.combine()
